@@ -217,6 +217,10 @@ def run(ctx):
             items.append("A 1 %d x%02x" % (j, j))
             if rnd.random() < 0.4:
                 items += ["F 1", rnd.choice(["w 1", "wi"])]
+        if rnd.random() < 0.35:
+            # a dump_data() snapshot that outlives the store: it is data, not an owner
+            items.append("DSK")
+            ctx.count("own_snapshot_kept_across_drop")
         items += ["F 1", "w %d" % rnd.choice([0, 1, 2, 3, 50]), rnd.choice(["dropheld", "panicheld", "panicheld"]),
                   "open " + cfg, "release", "open " + cfg, "G"]
         tcases.append("TRACE %s | %s" % (cfg, " ; ".join(items)))
